@@ -168,7 +168,26 @@ def _mk_wrapped(name):
     return wcb
 
 
+def _mk_async_wrapper(name):
+    """An `async def` wrapper created with functools.wraps around a *plain* function (an
+    @offloaded / @retry style helper): it is a coroutine function and must be treated as one."""
+    import functools
+
+    def inner(self, *args, **kwargs):
+        return None
+
+    inner.__name__ = name
+    inner.__qualname__ = f"HI.{name}"
+
+    @functools.wraps(inner)
+    async def awrap(self, *args, **kwargs):
+        return await CUR.env.acall(self, name, args, kwargs)
+    return awrap
+
+
 def _mk(name, flags):
+    if "W" in flags:
+        return _mk_async_wrapper(name)
     if "w" in flags:
         return _mk_wrapped(name)
     return _mk_async(name) if "a" in flags else _mk_sync(name)
